@@ -344,7 +344,12 @@ pub fn run_property(prop: &str) {
                 if !viols.is_empty() {
                     // replay before believing: must reproduce identically
                     let r2 = exec(scn, prop, &ch.iter().map(|c| c.2).collect::<Vec<_>>());
-                    if choices_of(&r2) != ch || r2["violations"] != r["violations"] {
+                    // reproduction = same choices, same (property, key) pairs; the descriptive text
+                    // may contain garbage values read from corrupted memory and is not compared
+                    let keys = |v: &Value| -> Vec<(String, String)> {
+                        v["violations"].as_array().map(|a| a.iter().map(|x| (x[0].as_str().unwrap_or("").to_string(), x[1].as_str().unwrap_or("").to_string())).collect()).unwrap_or_default()
+                    };
+                    if choices_of(&r2) != ch || keys(&r2) != keys(r) {
                         vcommon::machinery(&format!("{}: violation did not reproduce on replay (nondeterminism in the harness): {:?} vs {:?}", scn.name, r["violations"], r2["violations"]));
                     }
                     replays_ok += 1;
